@@ -45,6 +45,8 @@ if ben:
         num = d.get("what_changes_numerically", "") if isinstance(d, dict) else ""
         checks = ", ".join(m["ran"].get("checks", {}).keys())
         al = m.get("alarms") or []
+        if m.get("base"):
+            summ = f"*(recorded against /repo {m['base']}; {m.get('note_base', '')})* " + summ
         if m.get("preserves_property") is False:
             summ = "**(turned out not to preserve the property: " + m.get("note", "")[:220] + ")** " + summ
         out.append(f"| `{os.path.basename(os.path.dirname(f))}` | {re.sub(r'\s+', ' ', summ)[:260]} *({re.sub(r'\s+', ' ', str(num))[:160]})* | {checks}{' - **alarm: ' + ', '.join(al) + '**' if al else ''} |")
